@@ -258,3 +258,18 @@ Proof.
       destruct (multispace0 r0); [|discriminate]. inversion H; reflexivity. }
   rewrite Hv. exact Ep.
 Qed.
+
+(** example for the SAT round trips: all operators, an empty and a unary operator, [-( )], [( )] *)
+Definition ex_sform : sform :=
+  SOp OpEq [SOp OpXor [SLit false 0; SLit true 1]; SOp OpAnd [SLit false 1; SLit false 2; SOp OpOr []];
+            SNot (SOp OpOr [SLit false 0; SLit false 2]); SPar (SOp OpAnd [SLit true 2])].
+
+Lemma ex_sform_hyps :
+  sform_ok_b true (andb true true) 3 ex_sform = true /\
+  parse_dimacs false false (print_sat_body true true 3 ex_sform)
+  = POk (mkRProblem (varset_new 3)
+           [(DXor, [ALIn false 0; ALIn true 1]); (DAnd, [ALIn false 1; ALIn false 2; ALConst false]);
+            (DOr, [ALIn false 0; ALIn false 2]);
+            (DXor, [ALGate false 0; ALGate false 1; ALGate true 2; ALIn true 2])]
+           (ALGate true 3)).
+Proof. split; vm_compute; reflexivity. Qed.
